@@ -142,6 +142,7 @@ class Ctx:
         self.probes = {}
         self.model_state = {}                  # for O5 store model etc.
         self.pending_o2 = {}
+        self.cb_fault = None                   # armed by the executing step: "the n-th call-back made during this step raises"
         self.active_tracer = None              # tracer of the faulted step whose operation is on the stack
         self.kept = []                         # (record, raw result, exact key at return time) for O6
         self.fingerprints = set()
@@ -253,6 +254,14 @@ class Seam:
             if not seam.active:
                 # the wrapped callable outlived its step (a solution object keeps its mapper and calls it on every
                 # query): outside the host step it is the plain callable, whatever happens there belongs to that step
+                # - including a failure of the user's callable, if the step that is executing now is armed with one
+                cf = seam.ctx.cb_fault
+                if cf is not None and not cf["fired"]:
+                    if cf["count"] == cf["at"]:
+                        cf["fired"] = True
+                        seam.ctx.events.append(("cb-raise", cf["step"], cf["at"]))
+                        raise INJECTED.get(cf["exc"], INJECTED["interrupt"])()
+                    cf["count"] += 1
                 return default(*a, **kw)
             n = seam.calls
             seam.calls += 1
@@ -341,7 +350,11 @@ def exec_step(ctx, step, host=None):
     fault = step.get("fault") if ctx.mode == "history" else None
     rec = {"id": step["id"], "op": step["op"], "client": step.get("client"), "host": host, "depth": ctx.depth}
     seam = Seam(ctx, step)
-    io_fault = fault if fault and fault.get("kind") not in ("interrupt", "seam-raise") else None
+    io_fault = fault if fault and fault.get("kind") not in ("interrupt", "seam-raise", "cb-raise") else None
+    outer_cb = ctx.cb_fault
+    ctx.cb_fault = ({"at": int(fault.get("at", 0)), "count": 0, "fired": False, "exc": fault.get("exc", "callback"), "step": step["id"]}
+                    if fault and fault.get("kind") == "cb-raise" else None)
+    my_cb = ctx.cb_fault
     ctx.disk.arm(step["id"], io_fault)
     tracer = None
     status = "ok"
@@ -349,6 +362,8 @@ def exec_step(ctx, step, host=None):
     path_w = a.get(spec.writes) if spec.writes else None
     if path_r is not None:
         rec["saw"] = ctx.disk.seen_state(path_r)
+        if rec["saw"][0] == "bot":
+            rec["saw_cands"] = ctx.disk.candidates(path_r)
     try:
         if fault and fault.get("kind") == "interrupt":
             tracer = Tracer(int(fault["k"]), fault.get("exc", "interrupt"))
@@ -383,6 +398,13 @@ def exec_step(ctx, step, host=None):
         res = e.with_traceback(None)
         status = "exc"
     fired = ctx.disk.disarm()
+    ctx.cb_fault = outer_cb
+    if my_cb is not None and my_cb["fired"] and status != "skip":
+        if status != "interrupted":
+            rec["after_injection"] = status if status != "exc" else "exc:" + type(res).__name__
+        status = "interrupted"
+        res = None
+        rec["cb_raise"] = {"at": my_cb["at"], "exc": my_cb["exc"]}
     if seam.raised and status != "skip":
         if status != "interrupted":
             rec["after_injection"] = status if status != "exc" else "exc:" + type(res).__name__
